@@ -10,6 +10,7 @@ a fold of the configured function seeded with the initial value, making progress
 of a store (C11.b).  Not decided: user checksum callbacks, detection strength of
 the checksum, torn-write collision probabilities."""
 from .. import cast, sym, bitdom, lin, k4o, front
+from .common import distinct_enums
 from ..sym import C, fmt, linearize as L
 from ..lin import Lin
 
@@ -289,6 +290,19 @@ def rule_region(cx):
                 bad = "the instance is placed at checksum.address' = %s, not at the requested address: every later access lies outside the region the caller designated" % fmt(ca)
         ck.verdict(bad is None, 'C10.b', fn + ':layout', cx.where(fn),
                    'leaves data.address = checksum.address + checksum.size' if bad is None else bad)
+    # representation: the linear arguments above treat stored values as integers; that is only right if no configuration
+    # field is narrower than the value stored in it (an address field of 16 bits wraps the data region into the first 64 KiB)
+    for fn in ('set_data_address', 'persistent_place', 'persistent_init', 'persistent_sum16', 'persistent_sum32', 'persistent_buffer'):
+        if cx.u.fn(fn) is None:
+            continue
+        eng0 = sym.Engine(cx.u, sizeof=cx.eng.sizeof if hasattr(cx.eng, 'sizeof') else {}, inline=set())
+        try:
+            ns = eng0.narrowing_stores(eng0.paths(fn))
+        except (sym.Unsupported, sym.PathLimit) as e:
+            ck.broken('C10.b', fn + ':field-widths', cx.where(fn), str(e))
+            continue
+        ck.verdict(not ns, 'C10.b', fn + ':field-widths', cx.where(fn),
+                   'no field is narrower than the value stored in it' if not ns else '%s <- %s: %s' % (fmt(ns[0][0].name), ns[0][1], ns[0][2]))
 
 
 def width_of_path(p, cx):
@@ -805,6 +819,7 @@ def run_c10(ck):
     ck.assumptions += ['a medium callback transfers at most the requested count', 'integers are mathematical except where rule C10.a covers wrap-around']
     cx = Ctx(ck)
     rule_part_bounds(cx)
+    distinct_enums(ck, cx.u, 'C10.d', ('PERSISTENT_CHECKSUM_', 'PERSISTENT_ACCESS_'), 'include/ufw/persistent-storage.h')
     rule_region(cx)
     rule_fold(cx)
     rule_width(cx)
